@@ -36,7 +36,7 @@ def run(ctx):
     D.rule_header_reads(res, "C06-R1", ctx, fb)  # the fields the accept guard compares are the wire's (shared with C05-R11 / C12-R1)
     from rules import encoder_rules as E
     em = E.EncoderModel(fb)
-    E.rule_counter_writers(res, "C06-R6", em)
+    E.rule_counter_writers(res, "C06-R6", em, reported=False)
     E.rule_counter_survives_encode(res, "C06-R6", em)
     res.floor("C06-R6", 6)
     res.floor("C06-R1", 20)
